@@ -114,6 +114,12 @@ extern ssize_t mpt_slice_write(MPT_STRUCT(slice) *sl, size_t nblk, const void *f
 		if ((off = sl->_off) && (avail + off) >= size) {
 			ptr = (void *) (buf + 1);
 			if ((used = sl->_len)) {
+				/* source may be content of this slice: it moves along */
+				if (from
+				 && ((const uint8_t *) from >= (ptr + off))
+				 && ((const uint8_t *) from < (ptr + off + used))) {
+					from = ((const uint8_t *) from) - off;
+				}
 				memmove(ptr, ptr + off, used);
 			}
 			buf->_used = used;
